@@ -25,6 +25,14 @@ import tensorflow as tf
 from sedpack.io.metadata import Attribute
 
 
+# Floating point types which tf.train.FloatList (32 bit storage) or
+# tf.io.FixedLenFeature cannot represent. Saved as a serialized tensor.
+_SERIALIZED_TENSOR_DTYPES: dict[str, Any] = {
+    "float16": tf.float16,
+    "float64": tf.float64,
+}
+
+
 def bytes_feature(value: Any) -> Any:
     """Returns a bytes_list from a string / byte."""
     if isinstance(value, type(tf.constant(0))):
@@ -78,11 +86,11 @@ def get_from_tfrecord(
             "int64": tf.int64,
             "float16": tf.string,
             "float32": tf.float32,
-            "float64": tf.float64,
+            "float64": tf.string,
         }[attribute.dtype]
 
         shape: tuple[int, ...] = attribute.shape
-        if attribute.dtype == "float16":
+        if attribute.dtype in _SERIALIZED_TENSOR_DTYPES:
             # We parse from bytes so no shape
             shape = ()
 
@@ -93,9 +101,11 @@ def get_from_tfrecord(
     def from_tfrecord(tf_record: Any) -> Any:
         rec = tf.io.parse_single_example(tf_record, tf_features)
         for attribute in saved_data_description:
-            if attribute.dtype == "float16":
+            if attribute.dtype in _SERIALIZED_TENSOR_DTYPES:
                 rec[attribute.name] = tf.io.parse_tensor(
-                    rec[attribute.name], tf.float16)
+                    rec[attribute.name],
+                    _SERIALIZED_TENSOR_DTYPES[attribute.dtype],
+                )
                 rec[attribute.name] = tf.ensure_shape(rec[attribute.name],
                                                       shape=attribute.shape)
         return rec
@@ -146,11 +156,11 @@ def to_tfrecord(saved_data_description: list[Attribute],
         # Set feature value
         if attribute.dtype in ["int8", "uint8", "int32", "int64"]:
             feature[attribute.name] = int64_feature(values[attribute.name])
-        elif attribute.dtype == "float16":
-            value = value.astype(dtype=np.float16)
+        elif attribute.dtype in _SERIALIZED_TENSOR_DTYPES:
+            value = value.astype(dtype=attribute.dtype)
             feature[attribute.name] = bytes_feature(
                 [tf.io.serialize_tensor(value).numpy()])
-        elif attribute.dtype in ["float32", "float64"]:
+        elif attribute.dtype == "float32":
             feature[attribute.name] = float_feature(values[attribute.name])
         elif attribute.dtype == "str":
             feature[attribute.name] = bytes_feature(
